@@ -23,9 +23,13 @@
 (* (Explained / ShippedUsageFine).  CollectMode "byname" is the negative   *)
 (* control (C05_OptGen_Buggy_CollectByName): TLC must find a history on    *)
 (* which the rebuilt class answers with the wrong body.                    *)
+(* Round 4: OptPoolSel "fb" / ClassSel "args": argument-using classes on  *)
+(* leaves known through a base class only, with keyword extra arguments.   *)
+(* FbMode "mro-dropkw" is the negative control                            *)
+(* (C05_OptGen_Buggy_FallbackDropsKw): Explained must be refuted.          *)
 (***************************************************************************)
 EXTENDS C05_Optimizer, Json
-CONSTANTS OptPoolSel, OptArgSel, MaxLen, Steps, ClassSel, FirstSel, CollectMode
+CONSTANTS OptPoolSel, OptArgSel, MaxLen, Steps, ClassSel, FirstSel, CollectMode, FbMode
 VARIABLES cfg, hist, tab, ms, v, fa
 
 OptClasses == <<
@@ -45,6 +49,8 @@ OptClasses == <<
 >>
 Classes == CASE ClassSel = "all" -> { OptClasses[i] : i \in 1..5 }
              [] ClassSel = "alias" -> { OptClasses[6], OptClasses[7], OptClasses[8] }
+             \* round 4: the classes whose handlers use the extra arguments
+             [] ClassSel = "args" -> { OptClasses[1], OptClasses[4] }
              [] OTHER -> { OptClasses[1], OptClasses[2], OptClasses[3] }
 
 \* a class whose handlers use the extra arguments cannot have them dropped
@@ -71,6 +77,9 @@ OptPool == CASE OptPoolSel = "small" -> << x, S1, N("Product", << S1, S1 >>), K4
                                            N("Sum", << y, K4f >>) >>
              [] OptPoolSel = "core"  -> << x, K4, K4f, S1, S1f, N("Product", << S1, S1 >>),
                                            N("Product", << S1, y >>), CSE0(S1) >>
+             \* round 4: leaves that reach their handler through the class-hierarchy fallback
+             [] OptPoolSel = "fb"    -> << xs, xm, N("Sum", << x, xs, xm >>),
+                                           N("Product", << SM4, B("Power", SM4, KI(2)) >> ) >>
              \* every node kind, the aliased ones next to the kind whose handler they share
              [] OptPoolSel = "alias" -> <<
                     x, K4, S1,
@@ -88,7 +97,7 @@ OptArgs == CASE OptArgSel = "two"  -> << NoArgs, Args(<< IntV(1) >>, << >>) >>
              [] OptArgSel = "core" -> << NoArgs, Args(<< IntV(1) >>, << >>), Args(<< IntV(2) >>, << >>),
                                          Args(<< >>, << [name |-> "k", v |-> IntV(1)] >>) >>
 
-Sem == SemOfMode(cfg, CollectMode)
+Sem == SemOfModes(cfg, CollectMode, FbMode)
 TestCls == cfg[Len(cfg)].cls
 ArgOk(q) == IF TestCls.args THEN SigFits(Sem, OptArgs[q]) ELSE q = 1
 
